@@ -28,7 +28,7 @@ func ZzC12() {
 	R := zz.Param("R", 1)
 	// batch 1: every append is flushed at once and the write batch is emptied again;
 	// batch 64: appended headers stay in the write batch
-	cfgIdx := []int{0, 3, 2}
+	cfgIdx := []int{4, 5, 2} // large caches (see zzCfgsQuick)
 	cfg := zzCfgsQuick[cfgIdx[zz.Choice("cfg", zz.Param("CFGS", 2))]]
 	d := zzNewMemDS()
 	s := zzOpen(d, cfg)
@@ -36,6 +36,7 @@ func ZzC12() {
 	zz.Assert(s.Append(ctx, chain[:3]...) == nil, "Append ok")
 	zz.Assert(s.Sync(ctx) == nil, "Sync ok")
 	d.gates = true
+	d.gatesAfter = zz.Param("POSTGATES", 0) == 1
 
 	// what the writer will append: one or two batches out of chain[3..5]
 	// each batch is a list of chain indexes handed to one Append call
